@@ -74,13 +74,13 @@ inductive MSpan where
   deriving DecidableEq, Repr, Inhabited
 
 /-- the per-span `if / elif / elif / (else keep)` of `make_feature` (`L = len(self)`):
-`none` = `continue` (span dropped) -/
+`none` = `continue` (span dropped; since 11fcfbb18 also a span that only touches a view boundary) -/
 def clipSpan (L : Int) (sp : Int × Int) : Option (Int × Int) :=
   let mn := min sp.1 sp.2
   let mx := max sp.1 sp.2
   if mn < 0 ∧ 0 < mx then some (if sp.1 < 0 then 0 else sp.1, if sp.2 < 0 then 0 else sp.2)
   else if mn < L ∧ L < mx then some (if sp.1 > L then L else sp.1, if sp.2 > L then L else sp.2)
-  else if sp.1 = sp.2 ∨ mn > L ∨ mx < 0 then none
+  else if sp.1 = sp.2 ∨ mn ≥ L ∨ mx ≤ 0 then none
   else some sp
 
 /-- the body of the loop of `_spans_from_locations` for one location -/
